@@ -12,7 +12,7 @@ REV = {"0601d12": "C07", "5cd97c7": "C08", "72232ff": "C07", "b2a6c03": "C06", "
        "5b9db84": "C20", "58621b1": "C10", "b4e3172": "C15", "da65ae4": "C06", "10439ea": "C06", "78e7877": "C06", "1d98faa": "C06",
        "4636fe8": "C06", "0f20190": "C06"}      # 99d2244 (random_selection) is too rare for the quick tier: ~1 run in 10^4
 EXPECT_MISS = {"C05-agent3", "C20-agent6", "C07-agent6"}        # documented as out of reach (DESIGN.md 11.4)
-PROBABILISTIC = {"C17-agent2", "C17-agent6"}      # rare branch on the best agent: ~50 % at the quick tier, practically certain at the thorough tier
+PROBABILISTIC = {"C17-agent6"}      # rare branch on the best agent: ~50 % at the quick tier, practically certain at the thorough tier
 want = sys.argv[1:]
 jobs = []
 for d in sorted((ROOT / "seeded").iterdir()):
